@@ -489,3 +489,14 @@ Proof.
     eexists; split; [reflexivity|]. split; [reflexivity|]. constructor; [|constructor]. split; [exact Hp|].
     vm_compute. discriminate.
 Qed.
+
+(* ---- the forms stated in Properties_C15 ------------------------------------------------------------------------- *)
+Lemma s_tensor_roundtrip_enc : forall s dims elems rest,
+  tensor_ok s dims elems ->
+  dec (tensor_fmt s) (tensor_stream s dims elems ++ rest) = Some (mk_tensor s dims elems, rest) /\
+  enc (tensor_fmt s) (mk_tensor s dims elems) = tensor_stream s dims elems.
+Proof. intros. split; [apply s_tensor_roundtrip|apply tensor_stream_enc]; assumption. Qed.
+
+Lemma s_tensor_prefix_rejected' : forall s dims elems p q,
+  tensor_ok s dims elems -> q <> [] -> tensor_stream s dims elems = p ++ q -> dec (tensor_fmt s) p = None.
+Proof. intros s dims elems p q Hok Hq E. apply (s_tensor_prefix_rejected s dims elems p Hok). exists q. auto. Qed.
